@@ -7,7 +7,8 @@ usage: seedcheck.py AGENT_DIR PID I [CHECK_IDS,comma] [--tests]
  5. store patch, demonstration, notes and meta.json under /verif/seeded/<PID>-<I>/ ; reset the scratch tree"""
 import json, os, shutil, subprocess, sys
 agent, pid, i = sys.argv[1:4]
-ids = sys.argv[4].split(',') if len(sys.argv) > 4 and not sys.argv[4].startswith('--') else [pid]
+prop = pid[:3]
+ids = sys.argv[4].split(',') if len(sys.argv) > 4 and not sys.argv[4].startswith('--') else [prop]
 run_tests = '--tests' in sys.argv
 MUT = '/tmp/mut'
 head = subprocess.check_output(['git', '-C', '/repo', 'rev-parse', 'HEAD']).decode().strip()
@@ -25,7 +26,7 @@ shutil.copy(demo, os.path.join(DEMODIR, 'demo.py'))
 def rundemo():
     r = subprocess.run(['/venv/bin/python', os.path.join(DEMODIR, 'demo.py')], cwd=DEMODIR, env=env, stdout=subprocess.PIPE, stderr=subprocess.STDOUT, timeout=600)
     return r.returncode, r.stdout.decode('utf-8', 'replace')[-600:]
-meta = {'property': pid, 'index': int(i), 'repo_head': head}
+meta = {'property': prop, 'index': int(i), 'repo_head': head}
 rc0, out0 = rundemo()
 meta['demo_on_clean_tree_exit'] = rc0
 ap = subprocess.run(['git', '-C', MUT, 'apply', diff], stdout=subprocess.PIPE, stderr=subprocess.STDOUT)
